@@ -18,7 +18,9 @@
 #include <thread>
 
 #include <chrono>
+#include <condition_variable>
 #include <cstring>
+#include <mutex>
 
 #include "corecel/sys/VerifHooks.hh"
 #include "harness/c07_common.hh"
@@ -34,8 +36,10 @@
 // at least one event ("step-action" hook): the k-th step action is then executed by all busy
 // streams at the same time (same action, shared action object), which is where a static / a
 // mutable scratch buffer in a shared object is hit from two threads.
-static constexpr unsigned rv_begin_slots = 16, rv_step_hooks = 48;
-static std::atomic<unsigned> g_rv_arrived[rv_begin_slots + rv_step_hooks];
+static constexpr unsigned rv_begin_slots = 16, rv_step_hooks = 32;
+static unsigned g_rv_arrived[rv_begin_slots + rv_step_hooks];  // guarded by g_rv_mutex
+static std::mutex g_rv_mutex;
+static std::condition_variable g_rv_cv;
 static std::atomic<unsigned> g_rv_threads{0}, g_rv_busy_threads{0};
 static thread_local unsigned tl_rv_index = 0, tl_rv_step_index = 0;
 
@@ -59,14 +63,14 @@ static void rendezvous_hook(char const* tag)
     }
     if (need < 2)
         return;
-    g_rv_arrived[k].fetch_add(1);
-    auto t0 = std::chrono::steady_clock::now();
-    while (g_rv_arrived[k].load() < need)
-    {
-        if (std::chrono::steady_clock::now() - t0 > std::chrono::milliseconds(200))
-            break;  // never block: a thread that failed earlier must not hang the others
-        std::this_thread::yield();
-    }
+    // blocking (no spinning: the machine may be oversubscribed); never waits longer than
+    // 200 ms so that a thread that failed earlier cannot hang the others
+    std::unique_lock<std::mutex> lock(g_rv_mutex);
+    if (++g_rv_arrived[k] >= need)
+        g_rv_cv.notify_all();
+    else
+        g_rv_cv.wait_for(lock, std::chrono::milliseconds(200),
+                         [&] { return g_rv_arrived[k] >= need; });
 }
 
 //---------------------------------------------------------------------------//
@@ -258,17 +262,23 @@ static void part_tsan(vf::Run& R)
     for (unsigned T : {4u, 8u, 16u})
         for (unsigned rot : {0u, 1u})
         {
+            // quick: T=4 identity + rotated, T=8 identity, T=16 rotated
+            if (!thorough && ((T == 8 && rot == 1) || (T == 16 && rot == 0)))
+                continue;
             std::vector<unsigned> a;
             for (unsigned e = 0; e < T; ++e)
                 a.push_back((e + rot) % T);
             cases.push_back({T, a});
         }
-    int const reps = thorough ? 10 : 2;
+    // with the rendezvous one repetition already overlaps every begin-run action and the first
+    // step iteration of all streams; more repetitions sample different OS schedules of the rest
+    int const reps = thorough ? 5 : 1;
     std::set<std::string> reported;
     for (auto const& v : variants)
     {
         // serial reference on a separate CoreParams instance
         std::map<unsigned, uint64_t> ref_hash;
+        std::map<size_t, Tallies> ser_cache;  // per number of events (ref_hash[e] stays valid)
         for (auto const& cs : cases)
         {
             // quick: the three newer variants run the T=3 assignments that keep all three
@@ -290,6 +300,12 @@ static void part_tsan(vf::Run& R)
             R.begin_case(cid, 900);
             // serial reference: same events, one stream, in event order
             Tallies ser;
+            // (the serial result depends on the variant and the number of events only)
+            if (auto it = ser_cache.find(cs.assign.size()); it != ser_cache.end())
+            {
+                ser = it->second;
+            }
+            else
             {
                 auto Ps = make_problem(v, 1, slots);
                 auto st = Ps->make_stepper(0);
@@ -302,6 +318,7 @@ static void part_tsan(vf::Run& R)
                     ref_hash[e] = h;
                 }
                 ser = tallies(*Ps);
+                ser_cache[cs.assign.size()] = ser;
             }
             for (int rep = 0; rep < reps; ++rep)
             {
@@ -310,8 +327,11 @@ static void part_tsan(vf::Run& R)
                 std::vector<char> okv(cs.assign.size(), 1);
                 std::vector<std::string> errs(cs.T);
                 std::atomic<unsigned> ready{0};
-                for (auto& a : g_rv_arrived)
-                    a.store(0);
+                {
+                    std::lock_guard<std::mutex> lock(g_rv_mutex);
+                    for (auto& a : g_rv_arrived)
+                        a = 0;
+                }
                 g_rv_threads.store(cs.T);
                 g_rv_busy_threads.store(unsigned(std::set<unsigned>(cs.assign.begin(), cs.assign.end()).size()));
                 auto body = [&](unsigned t) {
